@@ -87,9 +87,9 @@ func (l *c14Limiter) Acquire(ctx context.Context) (core.Listener, bool) {
 	return &c14Token{l, l.n}, true
 }
 func (l *c14Limiter) String() string { return "limiter-" + l.name }
-func (k *c14Token) OnSuccess()        { k.lim.log.add("success(%s.token%d)", k.lim.name, k.id) }
-func (k *c14Token) OnIgnore()         { k.lim.log.add("ignore(%s.token%d)", k.lim.name, k.id) }
-func (k *c14Token) OnDropped()        { k.lim.log.add("dropped(%s.token%d)", k.lim.name, k.id) }
+func (k *c14Token) OnSuccess()       { k.lim.log.add("success(%s.token%d)", k.lim.name, k.id) }
+func (k *c14Token) OnIgnore()        { k.lim.log.add("ignore(%s.token%d)", k.lim.name, k.id) }
+func (k *c14Token) OnDropped()       { k.lim.log.add("dropped(%s.token%d)", k.lim.name, k.id) }
 
 type c14Stream struct {
 	log *c14Log
